@@ -19,9 +19,12 @@ PROPS = {
     'C25': dict(
         title='Value and log encodings round-trip safely',
         kani=['c25_value'],
-        verus=['c25_value'],
+        verus=['c25_value', 'c25_wal'],
         pairs={},
-        level_text='TBD', level_note='TBD', technique='TBD', design_ref='DESIGN.md §4 C25',
+        level_text='Proof, no bound on length or nesting: Verus proves the real PropertyValue::{encode,decode,decode_recursive} and WalRecord::{record_type,encode_body,decode_body} bodies against a written storage-format spec and a spec-level reference decoder (exec decoder refines it), proves the spec-level round trip by induction, proves absence of panics/overflow/out-of-bounds for every input byte string, and proves every pre-allocation is bounded by the input length; Kani proves bit-exact scalar round trips (all i64, all f64 bit patterns incl. NaN payloads and signed zeros) on the compiled crate.',
+        level_note='Not decided: round trip of Map-valued properties (BTreeMap iteration order is outside the spec; the Map decode arm is still proved panic-free), native stack depth of the recursive decoder on deeply nested lists (not a verifier notion; seen, recorded in DESIGN.md). Trusted: std to/from_le_bytes, String::from_utf8/as_bytes, slice to_vec/try_into wrappers, 64-bit usize, slice length <= isize::MAX; unit c25_wal uses the contracts of PropertyValue::encode/decode proved in unit c25_value. Kani cannot ingest any decoder that reads its tag back from a heap buffer (measured), so no counterexample route exists for the Verus obligations: violations there end with no-failing-input-found.',
+        technique='contract-based deductive verification (Verus: exec code refines a spec decoder, format lemmas by induction, allocation-budget preconditions; Kani full-domain scalar harness)',
+        design_ref='DESIGN.md §4 C25',
     ),
 }
 
